@@ -27,6 +27,14 @@ def exportBoot (value : α) (x : List α) (table : List (List Nat)) : List α :=
   let n : α := ofNatS x.length
   value :: table.map (fun row => sum (row.map (fun k => x.getD k 0)) / n)
 
+/-- `export_bootstrap(samples, random_numbers=table)` with its request check: the table has the documented
+    shape (samples, length) - anything else is refused (a table of another width would be divided by the wrong
+    number of configurations, a one-row table broadcast into identical samples) -/
+def exportBootChecked (samples : Nat) (value : α) (x : List α) (table : List (List Nat)) : Option (List α) :=
+  if table.length == samples && table.all (fun row => row.length == x.length) then
+    some (exportBoot value x table)
+  else none
+
 def meanL (x : List α) : α := sum x / ofNatS x.length
 
 end PV
